@@ -10,6 +10,7 @@ import (
 
 	"github.com/unixpickle/model3d/model3d"
 	"github.com/unixpickle/model3d/toolbox3d"
+	"verif/vlib"
 )
 
 func kidsHints(kids []*node3) []C3 {
@@ -62,8 +63,32 @@ func joinOptNode(kids []*node3) *node3 {
 }
 
 func muxNode(kids []*node3) *node3 {
-	return &node3{api: "model3d.SolidMux", s: model3d.NewSolidMux(solidsOf(kids)), def: orDef(kids),
+	mux := model3d.NewSolidMux(solidsOf(kids))
+	n := &node3{api: "model3d.SolidMux", s: mux, def: orDef(kids),
 		hints: kidsHints(kids), desc: "SolidMux", kids: kids, costly: anyCostly(kids)}
+	// the per-solid answers must not be cut by the BVH boxes either
+	n.extra = func(c *vlib.Case, q *querier) {
+		for i, p := range q.in {
+			if i >= 64 {
+				break
+			}
+			all := mux.AllContains(p.c3())
+			cnt := 0
+			for k, kid := range kids {
+				if kid.s.Contains(p.c3()) {
+					cnt++
+					c.Count("mux.per_solid_checks", 1)
+					if !all[k] {
+						c.Violation("model3d.SolidMux.AllContains/member-cut", "a member solid contains p but AllContains reports false for it", q.witness(p, map[string]interface{}{"member": k}))
+					}
+				}
+			}
+			if got := mux.IterContains(p.c3(), nil); got < cnt {
+				c.Violation("model3d.SolidMux.IterContains/member-cut", fmt.Sprintf("IterContains counts %d members, %d contain p", got, cnt), q.witness(p, nil))
+			}
+		}
+	}
+	return n
 }
 
 func intersectNode(kids []*node3) *node3 {
@@ -364,14 +389,7 @@ func transformNode(rng *rand.Rand, k *node3, x xform3) *node3 {
 			kmn.X+(kmx.X-kmn.X)*rng.Float64(), kmn.Y+(kmx.Y-kmn.Y)*rng.Float64(), kmn.Z+(kmx.Z-kmn.Z)*rng.Float64()))
 	}
 	for _, q := range cands {
-		ok := k.s.Contains(q)
-		for ax := 0; ax < 3 && ok; ax++ {
-			for _, sg := range []float64{-1, 1} {
-				if !k.s.Contains(q.Add(axis3(ax, sg*hq))) {
-					ok = false
-				}
-			}
-		}
+		ok := stable3(k.s.Contains, q, hq)
 		if ok && len(n.inside) < 24 {
 			n.inside = append(n.inside, x.t.Apply(q))
 		}
